@@ -59,7 +59,7 @@ PROPS["C16"] = {
 JSON_ASSUME = COMMON_ASSUME + ["fuel 2*len+2 suffices (model flag oof never raised in any run; proved separately where stated)"]
 
 PROPS["C09"] = {
-    "channels": [{"cmd": "run-json-exh"}, {"cmd": "run-json"}],
+    "channels": [{"cmd": "run-json-exh"}, {"cmd": "run-json"}, {"cmd": "run-bombs", "shards": 16}],
     "cone": r"^MISMATCH (json|json-fuel|judge|ndjson|harness|driver)",
     "exhaustive": True,
     "rule": "jexh: every string over the 18-symbol alphabet `[]{},:\"\\a1-.e tu0n` up to length 5 (quick) / 6 (thorough), in whole mode (limit 0) and truncated mode (limit = len): implementation verdict vs model vs the independent grammar judge; json: generated RFC 8259 documents x every cut x four queries with dirty recycled pool states, token mutations (delete/duplicate/swap/insert structural bytes), fixed tricky strings; non-trivial = accepted by some JSON-family detector",
@@ -69,7 +69,7 @@ PROPS["C09"] = {
 }
 
 PROPS["C08"] = {
-    "channels": [{"cmd": "run-json"}, {"cmd": "run-json-exh"}, {"cmd": "run-c10", "shards": 8}, {"cmd": "run-json-deep", "shards": 6}],
+    "channels": [{"cmd": "run-json"}, {"cmd": "run-json-exh"}, {"cmd": "run-c10", "shards": 8}, {"cmd": "run-json-deep", "shards": 6}, {"cmd": "run-bombs", "shards": 16}],
     "cone": r"^MISMATCH (json|json-fuel|judge|harness|driver)",
     "exhaustive": True,
     "data_obligations": ["children of text/plain before json are html, svg, xml, php, js, lua, perl, python"],
@@ -155,7 +155,7 @@ PROPS["C13"] = {
 }
 
 PROPS["C02"] = {
-    "channels": [{"cmd": "run-c02"}, {"cmd": "run-det", "shards": 16}],
+    "channels": [{"cmd": "run-c02"}, {"cmd": "run-det", "shards": 16}, {"cmd": "run-c14", "shards": 8}],
     "cone": r"^MISMATCH (walk|harness|driver)",
     "data_obligations": ["flatten tree0 = ids of nodes", "height tree0 = 4", "every registered type and alias is a lower-case token/token", "errMIME is the bare root"],
     "rule": "(a) mime.FormatMediaType -> mime.ParseMediaType on every 1-byte label, a hostile list (quotes, separators, backslash, CR/LF, NUL, DEL, non-ASCII, invalid UTF-8, 4 kB) and random 1-6 byte labels: the label must come back unchanged; (b) HTML / XML documents declaring those labels through Detect at limits {3072, 0, 40}, and every detector seed: String() must parse, (type, extension) must be a registered format, the only parameter is charset and only on the three text types, ancestors parameter-free and registered, chain ends at application/octet-stream (extracted predicate c02_judge); (c) failing readers / missing file: the value is exactly application/octet-stream; non-trivial = result carries a charset",
